@@ -226,6 +226,25 @@ pub fn emit(parsed: &[(String, syn::File)], out: &std::path::Path) {
                 }
             }
             if let syn::Item::Impl(im) = it {
+                // impl From<&T<C>> for Vec<u8>: the byte form of a wrapper type
+                if let (syn::Type::Path(sp), Some((_, tp, _))) = (&*im.self_ty, &im.trait_) {
+                    let st = quote::quote!(#sp).to_string().replace(' ', "");
+                    let ts = quote::quote!(#tp).to_string().replace(' ', "");
+                    if st == "Vec<u8>" && ts.starts_with("From<&") {
+                        let tn: String = ts["From<&".len()..].chars().take_while(|c| c.is_alphanumeric() || *c == '_').collect();
+                        if crate::wrappers::wrapper(&tn).is_some() {
+                            for ii in &im.items {
+                                if let syn::ImplItem::Fn(m) = ii {
+                                    let mut g = generics_of(&m.sig);
+                                    g.push(("Self".into(), "Vec<u8>".into()));
+                                    fns.push(FnInfo { container: tn.clone(), name: "to_vec_bytes".into(), file: path.clone(), sig: m.sig.clone(), block: m.block.clone(), generics: g, consts: file_consts.clone() });
+                                }
+                            }
+                        }
+                    }
+                }
+            }
+            if let syn::Item::Impl(im) = it {
                 // inherent methods of the wrapper types, and TryFrom<&[Signature<C>]> (the accumulators)
                 let self_name = match &*im.self_ty {
                     syn::Type::Path(p) => p.path.segments.last().unwrap().ident.to_string(),
@@ -237,18 +256,19 @@ pub fn emit(parsed: &[(String, syn::File)], out: &std::path::Path) {
                 let tr_s = im.trait_.as_ref().map(|(_, p, _)| quote::quote!(#p).to_string().replace(' ', ""));
                 let take = match &tr_s {
                     None => true,
-                    Some(t) => t == "TryFrom<&[Signature<C>]>",
+                    Some(t) => t == "TryFrom<&[Signature<C>]>" || t == "TryFrom<&[u8]>",
                 };
                 if !take {
                     continue;
                 }
+                let bytes_conv = tr_s.as_deref() == Some("TryFrom<&[u8]>");
                 for ii in &im.items {
                     if let syn::ImplItem::Fn(m) = ii {
                         let mut g = generics_of(&m.sig);
                         g.push(("Self".into(), self_name.clone()));
                         fns.push(FnInfo {
                             container: self_name.clone(),
-                            name: m.sig.ident.to_string(),
+                            name: if bytes_conv { "try_from_bytes".to_string() } else { m.sig.ident.to_string() },
                             file: path.clone(),
                             sig: m.sig.clone(),
                             block: m.block.clone(),
@@ -370,7 +390,7 @@ pub fn emit(parsed: &[(String, syn::File)], out: &std::path::Path) {
 
     let mut s = String::new();
     s.push_str("(* GENERATED by rs2v from the function bodies of /repo/src on every run. Do not edit.\n   One definition per translated function; vocabulary: coq/Refine/Prelude.v. *)\n");
-    s.push_str("From BV Require Import Alg.Field Alg.Dlog Sem.Base Model.Oracles Model.Helpers Model.Varint Model.Core\n     Model.Protocols Model.Api Gen.Consts Refine.Prelude.\n\n");
+    s.push_str("From BV Require Import Alg.Field Alg.Dlog Sem.Base Model.Oracles Model.Helpers Model.Varint Model.Core\n     Model.Protocols Model.Api Model.Codec Gen.Consts Refine.Prelude Refine.PreludeCodec.\n\n");
     let mut ok = 0;
     let mut failed = vec![];
     for i in order {
